@@ -70,10 +70,18 @@ class URI(Signature):
     @uri.register(str)
     def uri_str(self, val):
         self._uri = val
+        self._encoding_fallback = False
 
     @uri.register(bytearray)
     def uri_bytearray(self, val):
-        self.uri = val.decode('latin-1')
+        # written as UTF-8 (see __bytearray__), so read as UTF-8; octets that are not UTF-8 are kept as Latin-1 and written back as such
+        try:
+            self._uri = val.decode('utf-8')
+            self._encoding_fallback = False
+
+        except UnicodeDecodeError:
+            self._uri = val.decode('latin-1')
+            self._encoding_fallback = True
 
     def __init__(self):
         super(URI, self).__init__()
@@ -81,7 +89,7 @@ class URI(Signature):
 
     def __bytearray__(self):
         _bytes = super(URI, self).__bytearray__()
-        _bytes += self.uri.encode()
+        _bytes += self.uri.encode('latin-1' if self._encoding_fallback else 'utf-8')
         return _bytes
 
     def parse(self, packet):
